@@ -37,3 +37,8 @@ HSFZ_TABLES = {
         "ApplicationNotReady": 0x45, "OutOfMemory": 0xFF,
     },
 }
+
+
+# Payload lengths ISO 13400-2 allows for payload types with optional trailing fields: decoder class -> lengths that must decode.
+# Routing activation response: SA(2) TA(2) code(1) reserved(4) [OEM specific(4)]; entity status response: NT(1) MCTS(1) NCTS(1) [MDS(4)].
+DOIP_PAYLOAD_LENGTHS = {"RoutingActivationResponse": (9, 13), "DoIPEntityStatusResponse": (3, 7)}
